@@ -21,6 +21,7 @@ RULE = (
     'a cell face or contains a hostile coordinate; distinct = SHA-1 of the input array.'
 )
 RULE += ' Added in rounds 8-10: slices / split parts not starting at frame 0 examined as trajectories of their own; chunks joined with extend() (the second chunk may repeat the previous last frame); a sixth of the cases shifted by up to thousands of cells.'
+RULE += ' Round 15: repr() / str() of the object among the queries.'
 RULE += ' Round 14: sub-trajectories also with a stride (every 2nd / 3rd / 5th frame).'
 RULE += ' Round 13: a fifth of the walks also as variable-cell trajectories (one lattice per frame): positions, displacements, cumulative displacements, single-frame access.'
 RULE += ' Round 12 (thorough tier; quick with GV_HUGE=1): one trajectory of 11.3-12 million atom-frames (more than 256 MiB of coordinates): displacement bound, running sum against every frame, cumulative displacements against the unwrapped walk, position round trip.'
@@ -122,7 +123,11 @@ def examine(traj, X, U, m, ctx, what, order):
     ok = True
     out = {}
     for acc in order:
-        if acc == 'positions':
+        if acc == 'repr':
+            # printing the object (notebook echo, debugger, log line) is a query like any other
+            ok &= ctx.check(isinstance(repr(traj), str) and isinstance(str(traj), str), f'{what}: repr() / str() of the trajectory is not text')
+            ctx.count('objects_printed_between_queries')
+        elif acc == 'positions':
             p = np.array(traj.positions)
             ok &= ctx.check(bool(p.min() >= 0 and p.max() < 1), f'{what}: positions outside [0,1): min={p.min()!r} max={p.max()!r}', {'input': X})
             d = geom.circ_diff(p, X)
@@ -232,6 +237,10 @@ def run_unit(unit, rng, ctx):
     accs = ['positions', 'displacements', 'cumulative', 'distances']
     order1 = [accs[i] for i in rng.integers(len(accs), size=7)] + list(rng.permutation(accs))
     order2 = list(rng.permutation(accs)) + ['positions']
+    if unit['i'] % 3 == 1:
+        for _ in range(2):
+            order1.insert(int(rng.integers(1, len(order1))), 'repr')
+        order2.insert(int(rng.integers(1, len(order2))), 'repr')
     what = f'{kind}{"/rot" if rot else ""} T={T} N={N} mode={mode}'
     t1 = build(rng, m, U, mode, names)
     _, o1 = examine(t1, X1, U, m, ctx, what, order1)
